@@ -10,6 +10,7 @@ for name in sorted(os.listdir(os.path.join(ROOT, "seeded"))):
     m = json.load(open(mp))
     fired = [k for k, v in m.get("checks_quick", {}).items() if v == "fired"]
     silent = [k for k, v in m.get("checks_quick", {}).items() if v == "silent"]
+    fired += ["%s (thorough tier)" % k for k, v in m.get("checks_thorough", {}).items() if v == "fired" and k not in fired]
     rows.append("| `%s` | %s | %s | %s | %s | %s |" % (name, ", ".join(m["breaks"]), m["change"].replace("|", "\\|"), m["needs"].replace("|", "\\|"),
                                                 ", ".join(sorted(fired)) or "-", ", ".join(sorted(silent)) or "-"))
 tbl = "| seeded change | breaks | change | needs, to manifest | quick checks that fire | also run, silent |\n|---|---|---|---|---|---|\n" + "\n".join(rows)
